@@ -133,6 +133,14 @@ class PropV:
         self.key = "property(%s,%s)" % (getattr(fget, "key", "?"), getattr(fset, "key", "-"))
 
 
+class PartialV:
+    """functools.partial(f, *args, **kwargs)."""
+
+    def __init__(self, f, args, kwargs):
+        self.f, self.args, self.kwargs = f, list(args), dict(kwargs)
+        self.key = "partial(%s)" % getattr(f, "key", "?")
+
+
 class ClassV:
     def __init__(self, ci):
         self.ci = ci
@@ -421,6 +429,10 @@ class Evaluator:
             return self.lib.call_ext(self, f.dotted, args, kwargs, node)
         if isinstance(f, BoundExt):
             return self.lib.call_method(self, f.recv, f.name, args, kwargs, node)
+        if isinstance(f, PartialV):
+            kw = dict(f.kwargs)
+            kw.update(kwargs)
+            return self.call(f.f, list(f.args) + list(args), kw, node)
         if isinstance(f, Obj):
             m = f.cls.find_method("__call__")
             if m is not None:
